@@ -566,13 +566,28 @@ private:
     }
 
     // create_segment function is required by the segment_table base class
+    // Waits until the thread that owns the first block has filled the entry of one of its segments.
+    // If the allocation of the first block failed, its owner could only tag the entries of the table it saw (the embedded
+    // table is shorter than a big first block): an entry of a failed first block that is still empty is tagged here.
+    void wait_for_first_block_segment( segment_table_type table, segment_index_type seg_index ) {
+        atomic_backoff backoff;
+        while (table[seg_index].load(std::memory_order_acquire) == nullptr) {
+            if (table[0].load(std::memory_order_acquire) == this->segment_allocation_failure_tag) {
+                segment_type expected = nullptr;
+                table[seg_index].compare_exchange_strong(expected, this->segment_allocation_failure_tag);
+                break;
+            }
+            backoff.pause();
+        }
+    }
+
     segment_type create_segment( segment_table_type table, segment_index_type seg_index, size_type index ) {
         size_type first_block = this->my_first_block.load(std::memory_order_relaxed);
         // First block allocation
         if (seg_index < first_block) {
             // If 0 segment is already allocated, then it remains to wait until the segments are filled to requested
             if (table[0].load(std::memory_order_acquire) != nullptr) {
-                spin_wait_while_eq(table[seg_index], segment_type(nullptr));
+                wait_for_first_block_segment(table, seg_index);
                 return nullptr;
             }
 
@@ -606,7 +621,7 @@ private:
                 // Deallocate the memory
                 segment_element_allocator_traits::deallocate(segment_allocator, new_segment, first_block_size);
                 // 0 segment is already allocated, then it remains to wait until the segments are filled to requested
-                spin_wait_while_eq(table[seg_index], segment_type(nullptr));
+                wait_for_first_block_segment(table, seg_index);
             }
         } else {
             size_type offset = this->segment_base(seg_index);
@@ -793,10 +808,33 @@ private:
     void mark_abandoned_segments( segment_table_type table, size_type idx, size_type end_idx ) {
         segment_index_type first_block = this->my_first_block.load(std::memory_order_relaxed);
         segment_index_type last = this->segment_index_of(end_idx - 1);
-        for (segment_index_type seg = this->segment_index_of(idx) + 1; seg <= last; ++seg) {
+        // The segments of this call are those whose first element lies in [idx, end_idx)
+        segment_index_type seg = this->segment_index_of(idx);
+        if (this->segment_base(seg) != idx) ++seg;
+        for (; seg <= last; ++seg) {
             if (seg >= first_block) {
                 segment_type expected = nullptr;
                 table[seg].compare_exchange_strong(expected, this->segment_allocation_failure_tag);
+            }
+        }
+    }
+
+    // The growth call that claimed [idx, end_idx) gives the rest of its range up (an element constructor threw, or a
+    // segment could not be allocated): no segment of the range stays pending and the elements that exist as raw memory
+    // only are zero-filled, so that the vector remains destructible.
+    void abandon_range( segment_table_type table, size_type idx, size_type end_idx ) {
+        // The table may be the embedded one if its extension is what failed: stay inside it
+        size_type num_segments = base_type::number_of_segments(table);
+        if (this->segment_index_of(end_idx - 1) >= num_segments) {
+            end_idx = this->segment_base(num_segments);
+            if (idx >= end_idx) return;
+        }
+        mark_abandoned_segments(table, idx, end_idx);
+        for (size_type i = idx; i < end_idx; ++i) {
+            // Only the last segment of the range is allocated in advance,
+            // the segments between the failed element and the last one may be not allocated yet
+            if (table[this->segment_index_of(i)].load(std::memory_order_relaxed) > this->segment_allocation_failure_tag) {
+                zero_unconstructed_elements(&this->internal_subscript(i), /*count =*/1);
             }
         }
     }
@@ -805,22 +843,13 @@ private:
     void internal_loop_construct( segment_table_type table, size_type start_idx, size_type end_idx, const Args&... args ) {
         static_assert(sizeof...(Args) < 2, "Too many parameters");
         for (size_type idx = start_idx; idx < end_idx; ++idx) {
-            auto element_address = &base_type::template internal_subscript</*allow_out_of_range_access=*/true>(idx);
             // try_call API is not convenient here due to broken
             // variadic capture on GCC 4.8.5
+            // The guard also covers the access to the element: it allocates the segment when idx is its first element
             auto value_guard = make_raii_guard( [&] {
-                mark_abandoned_segments(table, idx, end_idx);
-                segment_index_type last_allocated_segment = this->find_last_allocated_segment(table);
-                size_type segment_size = this->segment_size(last_allocated_segment);
-                end_idx = end_idx < segment_size ? end_idx : segment_size;
-                for (size_type i = idx; i < end_idx; ++i) {
-                    // Only the last segment of the range is allocated in advance,
-                    // the segments between the failed element and the last one may be not allocated yet
-                    if (table[this->segment_index_of(i)].load(std::memory_order_relaxed) > this->segment_allocation_failure_tag) {
-                        zero_unconstructed_elements(&this->internal_subscript(i), /*count =*/1);
-                    }
-                }
+                abandon_range(table, idx, end_idx);
             });
+            auto element_address = &base_type::template internal_subscript</*allow_out_of_range_access=*/true>(idx);
             segment_table_allocator_traits::construct(base_type::get_allocator(), element_address, args...);
             value_guard.dismiss();
         }
@@ -829,21 +858,12 @@ private:
     template <typename ForwardIterator>
     void internal_loop_construct( segment_table_type table, size_type start_idx, size_type end_idx, ForwardIterator first, ForwardIterator ) {
         for (size_type idx = start_idx; idx < end_idx; ++idx) {
-            auto element_address = &base_type::template internal_subscript</*allow_out_of_range_access=*/true>(idx);
             try_call( [&] {
+                // The access to the element allocates the segment when idx is its first element
+                auto element_address = &base_type::template internal_subscript</*allow_out_of_range_access=*/true>(idx);
                 segment_table_allocator_traits::construct(base_type::get_allocator(), element_address, *first++);
             } ).on_exception( [&] {
-                mark_abandoned_segments(table, idx, end_idx);
-                segment_index_type last_allocated_segment = this->find_last_allocated_segment(table);
-                size_type segment_size = this->segment_size(last_allocated_segment);
-                end_idx = end_idx < segment_size ? end_idx : segment_size;
-                for (size_type i = idx; i < end_idx; ++i) {
-                    // Only the last segment of the range is allocated in advance,
-                    // the segments between the failed element and the last one may be not allocated yet
-                    if (table[this->segment_index_of(i)].load(std::memory_order_relaxed) > this->segment_allocation_failure_tag) {
-                        zero_unconstructed_elements(&this->internal_subscript(i), /*count =*/1);
-                    }
-                }
+                abandon_range(table, idx, end_idx);
             });
         }
     }
@@ -853,19 +873,25 @@ private:
         size_type seg_index = this->segment_index_of(end_idx - 1);
         this->assign_first_block_if_necessary(seg_index + 1);
         segment_table_type table = this->get_table();
-        this->extend_table_if_necessary(table, start_idx, end_idx);
+        // my_size covers [start_idx, end_idx) already: if the table or the last segment cannot be allocated,
+        // the segments of the range must not stay pending (internal_loop_construct takes care of its own failures)
+        try_call( [&] {
+            this->extend_table_if_necessary(table, start_idx, end_idx);
 
-        if (seg_index > this->my_first_block.load(std::memory_order_relaxed)) {
-            // So that other threads be able to work with the last segment of grow_by, allocate it immediately.
-            // If the last segment is not less than the first block
-            if (table[seg_index].load(std::memory_order_relaxed) == nullptr) {
-                size_type first_element = this->segment_base(seg_index);
-                if (first_element >= start_idx && first_element < end_idx) {
-                    segment_type segment = table[seg_index].load(std::memory_order_relaxed);
-                    base_type::enable_segment(segment, table, seg_index, first_element);
+            if (seg_index > this->my_first_block.load(std::memory_order_relaxed)) {
+                // So that other threads be able to work with the last segment of grow_by, allocate it immediately.
+                // If the last segment is not less than the first block
+                if (table[seg_index].load(std::memory_order_relaxed) == nullptr) {
+                    size_type first_element = this->segment_base(seg_index);
+                    if (first_element >= start_idx && first_element < end_idx) {
+                        segment_type segment = table[seg_index].load(std::memory_order_relaxed);
+                        base_type::enable_segment(segment, table, seg_index, first_element);
+                    }
                 }
             }
-        }
+        } ).on_exception( [&] {
+            abandon_range(this->get_table(), start_idx, end_idx);
+        });
 
         internal_loop_construct(table, start_idx, end_idx, args...);
 
@@ -917,6 +943,10 @@ private:
                 while (this->get_table()[seg_idx].load(std::memory_order_relaxed) == nullptr) {
                     backoff.pause();
                 }
+            }
+            // The growth call that owned this segment failed: the elements below new_size do not exist
+            if (this->get_table()[seg_idx].load(std::memory_order_relaxed) == this->segment_allocation_failure_tag) {
+                throw_exception(exception_id::bad_alloc);
             }
         }
 
